@@ -76,6 +76,13 @@ func (o *Out) violate(v Violation) {
 			v.Case = v.Case[:4000] + "…"
 		}
 		o.violations = append(o.violations, v)
+		// written through at once: a run that later dies (out of memory, fatal error, watchdog) must not lose what it found
+		if o.dir != "" {
+			res := map[string]any{"cases": o.n, "distinct_nontrivial": len(o.distinct), "stats": o.stats, "samples": o.samples, "violations": o.violations, "partial": true}
+			if b, err := json.MarshalIndent(res, "", " "); err == nil {
+				os.WriteFile(filepath.Join(o.dir, "direct.json"), b, 0o644)
+			}
+		}
 	}
 }
 
